@@ -674,12 +674,14 @@ def run(ck):
                 pool = vec_cache.setdefault(("ce", n), core_vectors(n) + extra_vectors(n))
                 vectors += rng.sample(pool, k)
         dpt, choice = depth(t), has_choice(t)
-        for args, kw in vectors:
+        for vi, (args, kw) in enumerate(vectors):
             if len(set(k for k, _ in kw)) != len(kw):
                 continue
             for extra in (True, False):
                 if not extra and mode.startswith("random") and rng.random() < 0.5:
                     continue
+                if not extra and mode == "core" and n >= 3 and vi % 4:
+                    continue        # with checking off only counts and callbacks can differ
                 res, log, raw = drive_parse_args(argparser, defs, args, kw, extra)
                 cases.append("mkC %s %s (Some %s) %s %s %s %s" % (
                     cbool(extra), cp, ct, c_values(args), c_kw(kw), res, c_log(log)))
@@ -935,9 +937,13 @@ def run(ck):
         "x the same vector families x extra on/off, unwrap off via dict / factory object / keyword; rpc literal+"
         "encoded with 1-3 parts. distinct = distinct (structure, args, kwargs, extra); non-trivial = at least two "
         "parameters or a real client"
-        % ("3 parameters: all 1466 shapes x all markings, 4 parameters: canonical shapes, 5-6: seeded sample"
+        % ("3 parameters: all 1466 shapes x all 8 markings x every valued subset x every split (checking on; a "
+           "quarter of them also with checking off; surplus/unknown/duplicate vectors on a 1-in-16 slice), "
+           "4 parameters: all 2718 shapes without single-container chains x all 16 markings (one marking with the "
+           "complete split space, the others seeded vectors), 5-6 parameters: 12000 seeded structures"
            if ck.tier == "thorough" else
-           "every 3-parameter shape once with a seeded marking and vector slice, seeded 4-6 parameter structures",
+           "every 3-parameter shape (1466) once with a seeded marking and vector slice, 840 seeded 4-6 parameter "
+           "structures",
            len(client_structs)))
     ck.exhaustive = False
     ck.extra["structures"] = len(structs)
@@ -1065,7 +1071,23 @@ def replay(ck, payload):
                 print("f(*%r, **%r) ->" % (a, k), call_client(c, rec, a, k))
         else:
             c = sudsutil.client_from_wsdl(wsdl, transport=rec, unwrap=False)
-            print("f(%r) ->" % (payload["values"],), call_client(c, rec, [dict(payload["values"])], {}))
+            vals, style = dict(payload["values"]), payload.get("style", "dict")
+            if style == "object":
+                arg = c.factory.create("Wrapper")
+                for kk, vv in vals.items():
+                    setattr(arg, kk, vv)
+            elif style == "dict-reversed":
+                arg = dict(reversed(list(vals.items())))
+            else:
+                arg = vals
+            if style == "keyword-dict":
+                print("unwrap=False f(%s=%r) ->" % (client_param_name(c), arg),
+                      call_client(c, rec, [], {client_param_name(c): arg}))
+            else:
+                print("unwrap=False f(<%s %r>) ->" % (style, vals), call_client(c, rec, [arg], {}))
+            rec1 = make_recorder()
+            c1 = sudsutil.client_from_wsdl(wsdl, transport=rec1)
+            print("unwrap=True  f(**%r) ->" % (vals,), call_client(c1, rec1, [], vals))
     elif kind == "rpc":
         rec = make_recorder()
         c = sudsutil.client_from_wsdl(rpc_wsdl(payload["n"], payload["encoded"]), transport=rec,
